@@ -61,6 +61,21 @@ def tasks_exhaustive(ctx):
     return t
 
 
+def tasks_silent(ctx):
+    """failures that leave nothing in the cache (the job's worker.run raises outside the part of Job.run that
+    records the error: pre_run / pre_run_task / post_run_task hook, preparing the job directory)"""
+    t = []
+    for sp in SMALL:
+        t.append((H.Opts(sp, loop="real", fail=99, vis=(0, INF), failkind="silent"), 0, 1))
+    for sp in MEDIUM if ctx.thorough else MEDIUM_QUICK:
+        for vis in ((0,), (INF,)):
+            t.append((H.Opts(sp, loop="real", fail=99, vis=vis, failkind="silent"), 0, 2))
+    if ctx.thorough:
+        for sp in SMALL:
+            t.append((H.Opts(sp, loop="real", fail=99, vis=(0, INF), multi=True, failkind="silent"), 0, 2))
+    return t
+
+
 def tasks_sampled(ctx):
     n = ctx.pick(12, 200)
     t = []
@@ -120,7 +135,20 @@ def run(ctx):
             rule="one case = one random script; distinct by choice list; non-trivial = at least one job fails",
             exhaustive=False,
         )
-        st, st2 = H.run_domains(ctx, "C14", [(dom, tasks_exhaustive(ctx), False), (dom2, tasks_sampled(ctx), False)])
+        dom3 = ctx.domain(
+            "failures that leave no error record (exhaustive)",
+            bound=(
+                f"as the first domain, real expand_workflow_async only, but a failing job's worker.run raises WITHOUT leaving a result or error file (what a raising pre_run / "
+                f"pre_run_task / post_run_task hook or a failure while the job directory is prepared does): {SMALL} every order x every failing subset x per-job lock visibility; "
+                f"{MEDIUM if ctx.thorough else MEDIUM_QUICK} with visibility all-seen / none-seen" + (f"; {SMALL} with several completions per observation" if ctx.thorough else "")
+            ),
+            rule="one case = one history; non-trivial = at least one job fails",
+            exhaustive=True,
+        )
+        st, st2, st3 = H.run_domains(ctx, "C14", [(dom, tasks_exhaustive(ctx), False), (dom2, tasks_sampled(ctx), False), (dom3, tasks_silent(ctx), False)])
+        for k in sorted(set(st3)):
+            if not isinstance(st3[k], dict):
+                ctx.note(f"[no-error-record domain] {k}: {st3[k]}")
         for k in sorted(set(st) | set(st2)):
             if isinstance(st.get(k, st2.get(k)), dict):
                 ctx.note(f"{k}: exhaustive {st.get(k, {})}; sampled {st2.get(k, {})}")
